@@ -7,7 +7,9 @@
 (*   [k |-> "TS"]                         scalar                           *)
 (*   [k |-> "TSS"]                        set of integers                  *)
 (*   [k |-> "TSW", n |-> N, min |-> M]    tick window                      *)
-(*   [k |-> "TSL", n |-> N, el |-> S]     fixed list                       *)
+(*   [k |-> "TSL", n |-> N, el |-> S]     fixed list; with a field dyn: a  *)
+(*                                        dynamic (unsized) list observed   *)
+(*                                        up to N elements                  *)
 (*   [k |-> "TSB", fs |-> <<S1, .., Sn>>] bundle                           *)
 (*   [k |-> "TSD", el |-> S]              dictionary, integer keys         *)
 (*                                                                         *)
@@ -164,7 +166,8 @@ ObsVal(sh, o) ==
       [] sh.k = "TSD" -> LET f == PairsFn(o.ch)
                              pub == {x \in DOMAIN f : HasValue(sh.el, ObsVal(sh.el, f[x]))}
                          IN  [ok |-> o.ok = 1, ch |-> [x \in pub |-> ObsVal(sh.el, f[x])]]
-      [] OTHER -> [ch |-> [i \in 1..NCh(sh) |-> ObsVal(ChSh(sh, i), o.ch[i])]]
+      \* a dynamic list shows only the children created so far: the others have no value yet
+      [] OTHER -> [ch |-> [i \in 1..NCh(sh) |-> IF i <= Len(o.ch) THEN ObsVal(ChSh(sh, i), o.ch[i]) ELSE EmptyV(ChSh(sh, i))]]
 
 (* values compared modulo validity bookkeeping that a delta cannot carry: an invalid scalar has no value *)
 RECURSIVE SameV(_, _, _)
